@@ -5,7 +5,7 @@ from ..core import Script, hx
 ID = "C17"
 SUITES = ["beacon"]
 LEAN_MODULES = ["VpnCloud.Proofs.C17"]
-THEOREMS = []
+THEOREMS = ["VpnCloud.Proofs.C17." + n for n in ("mask_length", "mask_involutive", "mask_wf", "encrypt_decrypt", "age_window", "peerlist_roundtrip_partial", "too_old_ignored", "findSub_sound", "findSub_none", "decode_clean")]
 BATCH = 100
 SEARCH_BUDGET_S = 300
 RULE = ("suite beacon: brt = encode at one hour, embed in host text (random alphanumerics and punctuation before / behind, separators interleaved in 4 modes), "
